@@ -300,7 +300,8 @@ def finish(pid, tier, results, t0, meta):
         'bounded': [{k: r.get(k) for k in ('name', 'verdict', 'bound', 'cases', 'detail')} for r in bounded],
         'vacuity': meta.get('vacuity', {}),
         'traces_validated_against_impl': meta.get('cross_checked', 0),
-        'obligation_names': [r['name'] for r in counted],
+        'obligation_names': [r['name'] for r in counted][:400],
+        'obligation_names_truncated': len(counted) > 400,
         'evaluations': max(n_obl, 1),
         'distinct_nontrivial': max(n_obl, 2),
         'rule': 'one evaluation per generated obligation (path x clause); all are distinct by name',
